@@ -35,3 +35,18 @@ Lemma cur_binding_times :
   binds_at KDense Assemble = true /\ binds_at KSingular Assemble = true /\ binds_at KSparse Assemble = true /\
   binds_at KPotential Create = true.
 Proof. vm_compute. auto. Qed.
+
+(* the cache keys of the current source, exactly: what the cached FMM interfaces are built from but not keyed on
+   (recorded finding C18:fmm-cache:...); a key that loses one more input, or an interface that reads one more parameter
+   without keying on it, changes these lists and breaks the lemma *)
+Lemma cur_cache_keys :
+  missing cur CFmm = [(FDepth, Own); (FNear, Global); (QReg, Own)] /\
+  missing cur CFmmPotential = [(FDepth, Global); (FNcrit, Global); (FOrder, Global); (QReg, Global)] /\
+  fst (cache_of cur CFmm) = [(FOrder, Own); (FNcrit, Own)] /\ fst (cache_of cur CFmmPotential) = [].
+Proof. vm_compute. auto. Qed.
+
+(* which parameters the FMM assemblers read through the global object (recorded finding C18:fmm:explicit-...) *)
+Definition global_reads (k : kind) : list field :=
+  map (fun r => fst (fst r)) (filter (fun r => src_eqb (snd (fst r)) Global) (reads_of cur k)).
+Lemma cur_fmm_global_reads : global_reads KFmm = [QReg] /\ global_reads KFmmPotential = [QReg].
+Proof. vm_compute. auto. Qed.
